@@ -40,7 +40,12 @@ func runC18B() {
 		nCases = 600
 	}
 	lo, hi := c.Slice(nCases)
+	violating := 0 // cases with a violation: two witnesses are enough (a broken roster makes the race detector crawl)
 	for i := lo; i < hi; i++ {
+		if violating >= 2 {
+			c.Count("cases_skipped_after_two_violating_cases", int64(hi-i))
+			break
+		}
 		r := c.SubRand(int64(i))
 		cs := c18bCase{Phases: 2 + r.Intn(3), Appenders: 1 + r.Intn(6), PerApp: 20 + r.Intn(200), Keepers: 1 + r.Intn(4),
 			PerKeep: 10 + r.Intn(100), Readers: 1 + r.Intn(3), Initial: 5 + r.Intn(40)}
@@ -57,7 +62,7 @@ func runC18B() {
 			expect[tid] = true
 			prev = append(prev, tid)
 		}
-		var overlaps, lostTotal, backTotal int64
+		var overlaps, lostTotal, backTotal, badTotal int64
 		for ph := 0; ph < cs.Phases; ph++ {
 			var wg sync.WaitGroup
 			var mu sync.Mutex
@@ -154,6 +159,7 @@ func runC18B() {
 			close(start)
 			wg.Wait()
 			if badSel > 0 {
+				badTotal += int64(badSel)
 				c.Violation("ROSTER-CONSERVATION", "filtered-returns-tasks-the-filter-rejects",
 					fmt.Sprintf("%d task(s) returned by filtered() do not satisfy the filter they were selected with", badSel), id, map[string]interface{}{"case": cs, "phase": ph})
 			}
@@ -200,11 +206,18 @@ func runC18B() {
 					id, map[string]interface{}{"case": cs, "phase": ph, "back": head(back, 10)})
 			}
 			if len(dup) > 0 {
+				badTotal += int64(len(dup))
 				c.Violation("ROSTER-CONSERVATION", "task-twice-in-the-roster",
 					fmt.Sprintf("%d task id(s) appear more than once in the roster", len(dup)),
 					id, map[string]interface{}{"case": cs, "phase": ph, "dup": head(dup, 10)})
 			}
 			prev = appended
+			if lostTotal+backTotal+badTotal > 0 {
+				break // the model no longer describes this roster
+			}
+		}
+		if lostTotal+backTotal+badTotal > 0 {
+			violating++
 		}
 		c.Count("append_keep_overlaps_observed", overlaps)
 		if overlaps > 0 {
